@@ -35,6 +35,41 @@ func memberClassify(c *sim.Cluster, v *common.Violation) {
 	}
 }
 
+func stickyMonitors(leader int, majority []int) func() []monitor.Monitor {
+	return func() []monitor.Monitor {
+		a := &monitor.Apply{}
+		return []monitor.Monitor{a, &monitor.Leader{}, &monitor.TermVote{}, &monitor.Sticky{Leader: leader, Majority: majority}}
+	}
+}
+
+// onlyNodes restricts fault events to the listed nodes (the premise of C16:
+// the leader and a majority stay in prompt contact).
+func onlyNodes(nodes ...int) func(c *sim.Cluster, ev []sim.Event) []sim.Event {
+	ok := map[int]bool{}
+	for _, n := range nodes {
+		ok[n] = true
+	}
+	return func(c *sim.Cluster, ev []sim.Event) []sim.Event {
+		out := ev[:0:0]
+		for _, e := range ev {
+			switch e.K {
+			case "isolate", "mute", "deafen", "crash", "restart", "arm":
+				if !ok[e.N] {
+					continue
+				}
+			}
+			out = append(out, e)
+		}
+		return out
+	}
+}
+
+func leaseMonitors() []monitor.Monitor {
+	a := &monitor.Apply{}
+	return []monitor.Monitor{a, &monitor.Leader{}, &monitor.Commit{}, &monitor.TermVote{}, &monitor.Linear{A: a},
+		&monitor.Reads{A: a, Kind: "lease", Prop: "C17"}}
+}
+
 func safetyMonitors() []monitor.Monitor {
 	a := &monitor.Apply{}
 	return []monitor.Monitor{a, &monitor.Leader{}, &monitor.Commit{}, &monitor.LogMatch{}, &monitor.TermVote{},
@@ -70,8 +105,8 @@ var (
 		"cut n0 a=1", // the two candidates cannot hear each other
 		"drop 1>2:RV#0", "drop 1>2:RV#1", "drop 1>2:AE#0", "drop 1>2:AE#1", "drop 0>2:RV#1", // stale requests
 	)
-	// S-stale (5 voters, K19): n0 led term 1 and has an unanswered AppendEntries
-	// (entries 3..5) that n1 accepted; n2 led term 2 and overwrote index 3 on
+	// S-stale (5 voters, K19): n0 led term 1 and has two unanswered AppendEntries:
+	// one (entries 3..5) that n1 accepted in term 1, one that n1 rejected in term 2; n2 led term 2 and overwrote index 3 on
 	// n0 and n1; n0 now leads term 3 (log 1,2,3',4) and the term-1 reply is
 	// still deliverable.
 	seedStale5 = sim.MustParse(
@@ -80,12 +115,13 @@ var (
 		"rt 0>1:AE#1", "rt 0>2:AE#1", "rt 0>3:AE#1", "rt 0>4:AE#1",
 		"write n0", "write n0", "write n0", "deliver 0>1:AE#4", "isolate n0",
 		"timeout n2", "rt 2>3:RV#0 a=2", "rt 2>4:RV#0 a=2", "rt 2>3:RV#1", "rt 2>4:RV#1",
-		"rt 2>1:AE#0", "heal", "rt 2>0:AE#0",
+		"rt 2>1:AE#0", "deliver 0>1:AE#3", // a second term-1 request reaches n1 late: rejected with term 2, reply withheld too
+		"heal", "rt 2>0:AE#0",
 		"timeout n0", "rt 0>1:RV#2 a=2", "rt 0>3:RV#2 a=2", "rt 0>1:RV#3", "rt 0>3:RV#3",
 		// stale requests nobody needs any more
 		"drop 0>3:RV#0", "drop 0>4:RV#0", "drop 0>3:RV#1", "drop 0>4:RV#1",
 		"drop 0>1:AE#2", "drop 0>2:AE#2", "drop 0>3:AE#2", "drop 0>4:AE#2",
-		"drop 0>1:AE#3", "drop 0>2:AE#3", "drop 0>3:AE#3", "drop 0>4:AE#3",
+		"drop 0>2:AE#3", "drop 0>3:AE#3", "drop 0>4:AE#3",
 		"drop 0>2:AE#4", "drop 0>3:AE#4", "drop 0>4:AE#4",
 		"drop 2>0:RV#0", "drop 2>1:RV#0", "drop 2>0:RV#1", "drop 2>1:RV#1",
 		"drop 2>3:AE#0", "drop 2>4:AE#0", "drop 2>0:AE#1", "drop 2>1:AE#1", "drop 2>3:AE#1", "drop 2>4:AE#1",
@@ -99,6 +135,26 @@ var (
 		"rt 0>1:AE#0", "rt 0>2:AE#0", "rt 0>1:AE#1", "rt 0>2:AE#1",
 		"beat n0", "deliver 0>1:AE#2", "isolate n0", "timeout n2", "rt 2>1:RV#0 a=2", "rt 2>1:RV#1", "rt 2>1:AE#0",
 		"drop 2>1:AE#1",
+	)
+	// S-regained (5 voters): like S-stale, but n1's acknowledgement of entries 3..5
+	// reached n0 during term 1 (its per-follower bookkeeping was updated), then n0
+	// lost leadership, n1's log was overwritten, and n0 leads again in term 3.
+	seedRegained5 = func() []sim.Event {
+		var out []sim.Event
+		for _, e := range seedStale5 {
+			if e.K == "deliver" && e.M == "0>1:AE#4" {
+				e.K = "rt"
+			}
+			out = append(out, e)
+		}
+		return out
+	}()
+	// S-leader5 (5 voters): n0 leads term 1, no-op committed everywhere.
+	seedLeader5 = sim.MustParse(
+		"timeout n0", "rt 0>1:RV#0 a=2", "rt 0>2:RV#0 a=2", "rt 0>3:RV#0 a=2", "rt 0>4:RV#0 a=2",
+		"rt 0>1:RV#1", "rt 0>2:RV#1", "rt 0>3:RV#1", "rt 0>4:RV#1",
+		"rt 0>1:AE#0", "rt 0>2:AE#0", "rt 0>3:AE#0", "rt 0>4:AE#0",
+		"rt 0>1:AE#1", "rt 0>2:AE#1", "rt 0>3:AE#1", "rt 0>4:AE#1",
 	)
 	// S-leader (3 voters): n0 leads term 1, its no-op is committed everywhere.
 	seedLeader3 = sim.MustParse(
@@ -118,6 +174,8 @@ func init() {
 		Budget: sim.Budget{Timeouts: 9, Elapses: 9, Beats: 9, Writes: 9, Reorders: -1, Splits: 9, Deviations: -1}})
 	reg(&explore.Suite{Name: "free3h", Cfg: sim.Config{Voters: 3, StoreHook: true},
 		Budget: sim.Budget{Timeouts: 9, Elapses: 9, Beats: 9, Writes: 9, Reorders: -1, Splits: 9, Crashes: 9, Arms: 9, Restarts: 9, Deviations: -1}})
+	reg(&explore.Suite{Name: "freelead5t", Cfg: sim.Config{Voters: 5, Timed: true}, Seed: seedLeader5, Monitors: leaseMonitors,
+		Budget: sim.Budget{Writes: 9, LeaseReads: 9, Cuts: 9, Lags: 9, Reorders: -1, MsgSteps: 99, Deviations: -1}})
 	reg(&explore.Suite{Name: "free5", Cfg: sim.Config{Voters: 5},
 		Budget: sim.Budget{Timeouts: 9, Elapses: 9, Beats: 9, Writes: 9, Reorders: -1, Splits: 9, Deviations: -1}})
 
@@ -143,6 +201,17 @@ func init() {
 			Budget: sim.Budget{Timeouts: 2, Elapses: 2, Beats: 1, Reorders: -1, Splits: 1, Deviations: d}})
 		reg(&explore.Suite{Name: fmt.Sprintf("lead3-d%d", d), Cfg: sim.Config{Voters: 3, StoreHook: true}, Seed: seedLeader3,
 			Budget: sim.Budget{Timeouts: 2, Elapses: 2, Beats: 1, Writes: 2, Reorders: -1, Splits: 2, Crashes: 2, Arms: 1, Restarts: 2, Deviations: d}})
+	}
+	for d := 0; d <= 4; d++ {
+		reg(&explore.Suite{Name: fmt.Sprintf("regained5-d%d", d), Cfg: sim.Config{Voters: 5}, Seed: seedRegained5,
+			Budget: sim.Budget{Timeouts: 1, Elapses: 1, Beats: 2, Writes: 1, Reorders: -1, Splits: 1, Deviations: d}})
+	}
+	for n := 2; n <= 4; n++ {
+		for d := 0; d <= 5; d++ {
+			// partitions: isolate / heal any node
+			reg(&explore.Suite{Name: fmt.Sprintf("part%d-d%d", n, d), Cfg: sim.Config{Voters: n},
+				Budget: sim.Budget{Timeouts: 3, Elapses: 3, Beats: 1, Writes: 2, Cuts: 2, Reorders: -1, Splits: 1, Deviations: d}})
+		}
 	}
 	for d := 0; d <= 4; d++ {
 		reg(&explore.Suite{Name: fmt.Sprintf("stale5-d%d", d), Cfg: sim.Config{Voters: 5}, Seed: seedStale5,
@@ -200,8 +269,43 @@ func init() {
 	}
 	reg(&explore.Suite{Name: "freememlead3", Cfg: sim.Config{Voters: 3, Spares: 1}, Seed: seedLeader3, Monitors: memberMonitors,
 		Budget: sim.Budget{Timeouts: 9, Elapses: 9, Beats: 9, Writes: 9, Reads: 9, Members: 9, Reorders: -1, Splits: 9, Cuts: 9, Crashes: 9, Restarts: 9, Deviations: -1}})
+	reg(&explore.Suite{Name: "freenv", Cfg: sim.Config{Voters: 3, Spares: 2}, Seed: seedLeader3, Monitors: memberMonitors,
+		Budget: sim.Budget{Timeouts: 9, Elapses: 9, Beats: 9, Writes: 9, Reads: 9, Members: 9, Reorders: -1, Splits: 9, Cuts: 9, Crashes: 9, Restarts: 9, Deviations: -1}})
 	reg(&explore.Suite{Name: "freemem4", Cfg: sim.Config{Voters: 4, Spares: 1}, Monitors: memberMonitors,
 		Budget: sim.Budget{Timeouts: 9, Elapses: 9, Beats: 9, Writes: 9, Reads: 9, Members: 9, Reorders: -1, Splits: 9, Cuts: 9, Crashes: 9, Restarts: 9, Deviations: -1}})
+	// C16: timed, faults only on the minority node n2
+	for d := 0; d <= 4; d++ {
+		for rot := 0; rot < 3; rot++ {
+			reg(&explore.Suite{Name: fmt.Sprintf("sticky3r%d-d%d", rot, d), Cfg: sim.Config{Voters: 3, Timed: true, Asym: true, Rot: rot}, Seed: seedLeader3,
+				Monitors: stickyMonitors(0, []int{0, 1}), Filter: onlyNodes(2),
+				Budget:   sim.Budget{Cuts: 3, Crashes: 1, Restarts: 1, Steps: 36, Reorders: -1, MsgSteps: 2, Deviations: d}})
+		}
+	}
+	// C16 seed S-isolated: n2 has been cut off for 10 intervals and is campaigning
+	isolated := append(append([]sim.Event{}, seedLeader3...), sim.MustParse("isolate n2", "adv", "adv", "adv", "adv", "adv", "adv", "adv", "adv", "adv", "adv")...)
+	for d := 0; d <= 4; d++ {
+		for rot := 0; rot < 3; rot++ {
+			reg(&explore.Suite{Name: fmt.Sprintf("rejoin3r%d-d%d", rot, d), Cfg: sim.Config{Voters: 3, Timed: true, Asym: true, Rot: rot}, Seed: isolated,
+				Monitors: stickyMonitors(0, []int{0, 1}), Filter: onlyNodes(2),
+				Budget:   sim.Budget{Cuts: 2, Crashes: 1, Restarts: 1, Steps: 16, Reorders: -1, MsgSteps: 3, Deviations: d}})
+		}
+	}
+	// C17: timed lease reads. S-cutleader: the leader n0 has been cut off for 10
+	// intervals (a new leader exists on the other side).
+	cutLeader := append(append([]sim.Event{}, seedLeader3...), sim.MustParse("isolate n0", "adv", "adv", "adv", "adv", "adv", "adv", "adv", "adv", "adv", "adv", "adv", "adv")...)
+	// S-minority5: leader n0 keeps only n1 (2 of 5); n2 leads term 2 with n3, n4.
+	minority5 := append(append([]sim.Event{}, seedLeader5...), sim.MustParse("cut n0 a=2", "cut n0 a=3", "cut n0 a=4", "cut n1 a=2", "cut n1 a=3", "cut n1 a=4",
+		"adv", "adv", "adv", "adv", "adv", "adv", "adv", "adv", "adv", "adv", "adv", "adv", "adv")...)
+	for d := 0; d <= 4; d++ {
+		reg(&explore.Suite{Name: fmt.Sprintf("minlease5-d%d", d), Cfg: sim.Config{Voters: 5, Timed: true}, Seed: minority5, Monitors: leaseMonitors,
+			Budget: sim.Budget{Writes: 1, LeaseReads: 2, Lags: 1, Steps: 8, Reorders: -1, Deviations: d}})
+	}
+	for d := 0; d <= 4; d++ {
+		reg(&explore.Suite{Name: fmt.Sprintf("lease3-d%d", d), Cfg: sim.Config{Voters: 3, Timed: true}, Seed: seedLeader3, Monitors: leaseMonitors,
+			Budget: sim.Budget{Writes: 1, LeaseReads: 2, Cuts: 2, Lags: 2, Steps: 30, Reorders: -1, MsgSteps: 1, Deviations: d}})
+		reg(&explore.Suite{Name: fmt.Sprintf("cutlease3-d%d", d), Cfg: sim.Config{Voters: 3, Timed: true}, Seed: cutLeader, Monitors: leaseMonitors,
+			Budget: sim.Budget{Writes: 2, LeaseReads: 2, Cuts: 1, Lags: 1, Steps: 14, Reorders: -1, MsgSteps: 1, Deviations: d}})
+	}
 	// small unbounded spaces (no deviation bound): every order within the budgets
 	reg(&explore.Suite{Name: "all2", Cfg: sim.Config{Voters: 2},
 		Budget: sim.Budget{Timeouts: 3, Elapses: 3, Beats: 1, Writes: 1, Reorders: -1, Splits: 1, Deviations: -1}})
